@@ -600,11 +600,13 @@ impl<T: Serialize + for<'de> Deserialize<'de> + Clone + PartialEq + Send + Sync 
                     "mutex lock failed".to_string().into(),
                 ))
             })?;
-            writer.write_entry(&wal_entry)?;
-
+            // Rotate before writing, not after: if rotation fails the operation
+            // fails with nothing logged, instead of returning an error for a record
+            // that is already durable and will reappear after a restart.
             if writer.needs_rotation() {
                 writer.rotate()?;
             }
+            writer.write_entry(&wal_entry)?;
         }
 
         // Update in-memory state
@@ -651,11 +653,13 @@ impl<T: Serialize + for<'de> Deserialize<'de> + Clone + PartialEq + Send + Sync 
                     "mutex lock failed".to_string().into(),
                 ))
             })?;
-            writer.write_entry(&wal_entry)?;
-
+            // Rotate before writing, not after: if rotation fails the operation
+            // fails with nothing logged, instead of returning an error for a record
+            // that is already durable and will reappear after a restart.
             if writer.needs_rotation() {
                 writer.rotate()?;
             }
+            writer.write_entry(&wal_entry)?;
         }
 
         // Update in-memory state
